@@ -308,10 +308,13 @@ func (c *Client) Save(ctx context.Context, h backend.Handle, rd backend.RewindRe
 	if int64(len(buf)) != rd.Length() {
 		return fmt.Errorf("simbe: wrote %d bytes instead of the expected %d bytes", len(buf), rd.Length())
 	}
-	hs := c.Hasher()
-	_, _ = hs.Write(buf)
-	if !bytes.Equal(hs.Sum(nil), rd.Hash()) {
-		return errors.New("simbe: invalid file hash or content")
+	if rd.Hash() != nil {
+		// the backend hash is optional (callers may pass a reader without one)
+		hs := c.Hasher()
+		_, _ = hs.Write(buf)
+		if !bytes.Equal(hs.Sum(nil), rd.Hash()) {
+			return errors.New("simbe: invalid file hash or content")
+		}
 	}
 	d := c.op("Save", h, func(t *simrt.Tape, d *decision) {
 		switch {
